@@ -128,6 +128,18 @@ def _judge_impl(n, mb, D, sd, arrays, k, l, default_devices, jnp):
             return verdict_fail("states-not-in-order", info)
         if npad and np.any(flat[n:] != 0):
             return verdict_fail("padding-not-zero-rows", info)
+        # the same processor is used again with other dtypes (float first, then large integers): layout and values must hold
+        for dt, base in ((np.float64, 0.5), (np.int32, 2**24 + 1)):
+            st2 = (np.arange(n * sd, dtype=np.int64).reshape(n, sd) + base).astype(dt) if dt is np.int32 else \
+                (np.arange(n * sd, dtype=np.float64).reshape(n, sd) + base)
+            try:
+                b2 = np.asarray(bp.prepare_batches(jnp.asarray(st2)))
+            except Exception as e:
+                return verdict_fail(sut_bucket(e), f"repeated prepare_batches raised {e!r}; {info}")
+            f2 = b2.reshape(-1, sd)
+            if b2.shape != (nd, nb, bs, sd) or not np.array_equal(f2[:n].astype(np.float64), np.asarray(jnp.asarray(st2)).astype(np.float64)) \
+                    or (npad and np.any(f2[n:] != 0)):
+                return verdict_fail("repeated-use-changes-layout-or-values", f"{info}; second/third prepare_batches call with dtype {np.dtype(dt).name}")
         for trailing in ((), (k,), (k, l)):
             size = nd * nb * bs * int(np.prod(trailing, dtype=np.int64))
             res = (np.arange(size, dtype=np.float64) + 0.5).reshape((nd, nb, bs) + trailing)
